@@ -29,7 +29,7 @@ type defSite struct {
 	idx  int      // tuple index or parameter index
 	name string   // for params: canonical name
 	pos  token.Pos
-	zero bool // var x T without initialiser
+	zero bool         // var x T without initialiser
 	lit  *ast.FuncLit // innermost enclosing function literal of the definition (nil: root function)
 }
 
